@@ -273,6 +273,8 @@ func c13Defaults(e *Env) {
 func C17(e *Env) {
 	r := e.R
 	e.analysedBase()
+	cliSurfaceRule(e, "R16.0")
+	e.R.Rule("R16.0", "--stub is a registered flag of `gontainer build` (shared with C16)", 7)
 	r.Rule("R17.1", "for every instantiated valuation the stub declares the same package, container type, constructor and getter methods with identical parameter and result types as the normal output", 8)
 	r.Rule("R17.2", "the stub compiles, references objects of the user's packages only as types, and the bodies of its constructor and getters are the single statement panic(\"stub\")", 3)
 	r.Rule("R17.3", "the stub (and only the stub) starts with a //go:build line that requires the gontainerstub tag, before the package clause", 2)
